@@ -35,6 +35,30 @@ def bh_names(fa: FuncAnalysis) -> set[str]:
     return out
 
 
+# names of same-module helpers whose every return is an error envelope (learned per module by learn_error_helpers), and
+# per-function locals that hold an error envelope when they are not None (bound from a CAS helper's tuple: see Cas)
+_ERROR_HELPERS: set[str] = set()
+_ERROR_VARS: dict[str, set[str]] = {}
+_CURRENT_FUNC: list[str] = [""]
+
+
+def learn_error_helpers(mod) -> None:
+    changed = True
+    while changed:
+        changed = False
+        for f in mod.functions.values():
+            if f.name in _ERROR_HELPERS:
+                continue
+            rets = [n for n in walk_no_nested(f.node) if isinstance(n, ast.Return)]
+            if rets and all(error_return(r) for r in rets):
+                _ERROR_HELPERS.add(f.name)
+                changed = True
+
+
+def error_value(v: ast.AST | None) -> bool:
+    return v is not None and error_return(ast.Return(value=v))
+
+
 def error_return(node: ast.AST) -> bool:
     """a return statement that yields an error envelope"""
     if not isinstance(node, ast.Return) or node.value is None:
@@ -42,8 +66,10 @@ def error_return(node: ast.AST) -> bool:
     v = node.value
     if isinstance(v, ast.Call) and isinstance(v.func, (ast.Attribute, ast.Name)):
         name = v.func.attr if isinstance(v.func, ast.Attribute) else v.func.id
-        if "error" in name.lower():
+        if "error" in name.lower() or name in _ERROR_HELPERS:
             return True
+    if isinstance(v, ast.Name) and v.id in _ERROR_VARS.get(_CURRENT_FUNC[0], set()):
+        return True
     if isinstance(v, ast.Dict):
         for k, val in zip(v.keys, v.values):
             if isinstance(k, ast.Constant) and k.value == "status" and isinstance(val, ast.Constant) and val.value == "error":
@@ -51,17 +77,84 @@ def error_return(node: ast.AST) -> bool:
     return False
 
 
+class _HelperInst:
+    """stand-in for an Install when the compare lives in a helper: the target is the helper's own parameter"""
+
+    def __init__(self, fa: FuncAnalysis, target_param: str):
+        self.fa = fa
+        self.target = ast.Name(id=target_param)
+        self.mkstemp = None
+        self.replace = None
+
+
+def cas_helper_summary(h, res: Resolver, target_param: str, bh_param: str) -> tuple[int, "Cas"] | None:
+    """`h` is a CAS helper when (a) it touches the filesystem read-only, (b) every return is a tuple of one width in which one
+    fixed position k holds either None (success) or an error envelope, (c) it contains a compare hash(read(<target_param>)) !=
+    <bh_param> whose mismatch edge reaches only error returns, and (d) every path from its entry to a success return passes
+    such a compare or leaves a base_hash-falsy guard. Returns (k, the helper's Cas) or None."""
+    fa = FuncAnalysis(h, res)
+    if fa.effects(fsm.MUTATING):
+        return None
+    cas = Cas(_HelperInst(fa, target_param), res, bh={bh_param})  # type: ignore[arg-type]
+    cfg = cas.cfg
+    rets = [n for n in cfg.nodes if isinstance(n.ast, ast.Return)]
+    if not rets or not all(isinstance(n.ast.value, ast.Tuple) for n in rets) or len({len(n.ast.value.elts) for n in rets}) != 1:  # type: ignore[union-attr]
+        return None
+    width = len(rets[0].ast.value.elts)  # type: ignore[union-attr]
+    for k in range(width):
+        is_none = lambda n: isinstance(n.ast.value.elts[k], ast.Constant) and n.ast.value.elts[k].value is None  # noqa: E731
+        is_err = lambda n: error_value(n.ast.value.elts[k])  # noqa: E731
+        if not all(is_none(n) or is_err(n) for n in rets) or not any(is_err(n) for n in rets):
+            continue
+        success = {n.id for n in rets if is_none(n)}
+        valid = set()
+        for tid, info in cas.compares.items():
+            mis = [x for x, lab in cfg.succ[tid] if lab == info["mismatch"]]
+            rr = _returns_reachable(cfg, mis, stop=set())
+            hv = info["hash_var"]
+            computed = any(any(cfg.dominated_by(tid, a) for a in cfg.node_for_stmt_containing(st)) for st, _ in cas.hash_vars[hv])
+            if rr and not (set(rr) & success) and computed:
+                valid.add(tid)
+        if not valid:
+            return None
+        if cas.path_without_compare(cfg.entry, success, valid) is not None:
+            return None
+        # R17.3 inside the helper: a base_hash guard conjoined with another fact discharges only if the complementary case
+        # was rejected before (a dominating `not <fact>` test whose true edge reaches no success return)
+        for g, prot in cas.protecting.items():
+            for o in cas.guards[g]["others"]:
+                want = ast.dump(o)
+                rejected = False
+                for d in cfg.dominators()[g]:
+                    dn = cfg.nodes[d]
+                    if dn.kind != "test" or d == g or dn.ast is None:
+                        continue
+                    ops = dn.ast.values if isinstance(dn.ast, ast.BoolOp) and isinstance(dn.ast.op, ast.And) else [dn.ast]
+                    if any(isinstance(x, ast.UnaryOp) and isinstance(x.op, ast.Not) and ast.dump(x.operand) == want for x in ops):
+                        ts = [x for x, lab in cfg.succ[d] if lab == "t"]
+                        if not (set(_returns_reachable(cfg, ts, stop=set())) & success):
+                            rejected = True
+                if not rejected:
+                    return None
+        cas.valid_in_helper = valid
+        return k, cas
+    return None
+
+
 class Cas:
-    def __init__(self, inst: Install, res: Resolver):
+    def __init__(self, inst: Install, res: Resolver, bh: set[str] | None = None):
         self.inst = inst
         self.fa = inst.fa
         self.cfg: CFG = inst.fa.cfg
-        self.bh = bh_names(self.fa)
+        self.bh = bh if bh is not None else bh_names(self.fa)
         self.aliases = target_aliases(inst)
         self.M = inst.node(inst.mkstemp) if inst.mkstemp else None
         self.R = inst.node(inst.replace) if inst.replace else None
         self.hash_vars = self._hash_vars()
         self.compares = self._compare_nodes()
+        self.helper_cas: dict[str, Cas] = {}
+        if bh is None:
+            self._helper_compares(res)
         self.guards = self._guard_nodes()
         # guards whose true edge leads to a compare they dominate: only these discharge by their false edge
         self.protecting: dict[int, list[int]] = {}
@@ -125,6 +218,60 @@ class Cas:
                     mismatch_label = "t" if isinstance(t.ops[0], ast.NotEq) != neg else "f"
                     out[node.id] = {"hash_var": h_side[0].id, "mismatch": mismatch_label, "match": "f" if mismatch_label == "t" else "t"}
         return out
+
+    def _helper_compares(self, res: Resolver) -> None:
+        """`(.., err, ..) = self.<helper>(<target>, .., <base_hash>, ..)` followed by a test of `err`: when the helper is a CAS
+        helper (cas_helper_summary) the test is a compare node whose mismatch edge is the one on which err is not None"""
+        fi = self.fa.fi
+        errvars: dict[str, list[tuple[ast.Assign, str]]] = {}
+        for n in walk_no_nested(fi.node):
+            if not (isinstance(n, ast.Assign) and len(n.targets) == 1 and isinstance(n.targets[0], ast.Tuple) and isinstance(n.value, ast.Call)):
+                continue
+            call = n.value
+            if call.keywords or any(isinstance(a, ast.Starred) for a in call.args):
+                continue
+            tpos = [i for i, a in enumerate(call.args) if isinstance(a, ast.Name) and a.id in self.aliases]
+            bpos = [i for i, a in enumerate(call.args) if isinstance(a, ast.Name) and a.id in self.bh]
+            if len(tpos) != 1 or len(bpos) != 1:
+                continue
+            for c in res.resolve_call(fi, call):
+                if c.kind != "repo" or c.func is None or c.func.module is not fi.module:
+                    continue
+                params = [a.arg for a in c.func.node.args.args if a.arg not in ("self", "cls")]  # type: ignore[attr-defined]
+                if len(params) != len(call.args):
+                    continue
+                summ = cas_helper_summary(c.func, res, params[tpos[0]], params[bpos[0]])
+                if summ is None:
+                    continue
+                k, hcas = summ
+                tgt = n.targets[0].elts
+                if len(tgt) > k and isinstance(tgt[k], ast.Name):
+                    errvars.setdefault(tgt[k].id, []).append((n, c.func.qualname))
+                    self.helper_cas[c.func.qualname] = hcas
+        for var, defs in errvars.items():
+            all_defs = [st for st, _v in self.fa.assignments_to(var)]
+            if {id(x) for x in all_defs} != {id(st) for st, _q in defs}:
+                continue  # also bound by something else: the test says nothing about the helper's compare
+            _ERROR_VARS.setdefault(fi.fqn, set()).add(var)
+            def_nodes = {x for st, _q in defs for x in self.cfg.node_for_stmt_containing(st)}
+            for node in self.cfg.nodes:
+                if node.kind != "test" or node.ast is None:
+                    continue
+                t = node.ast
+                neg = False
+                if isinstance(t, ast.UnaryOp) and isinstance(t.op, ast.Not):
+                    t, neg = t.operand, True
+                if isinstance(t, ast.Compare) and len(t.ops) == 1 and isinstance(t.ops[0], (ast.Is, ast.IsNot)) and isinstance(t.comparators[0], ast.Constant) and t.comparators[0].value is None and is_name(t.left, var):
+                    err_on_true = isinstance(t.ops[0], ast.IsNot)
+                elif is_name(t, var):
+                    err_on_true = True
+                else:
+                    continue
+                if neg:
+                    err_on_true = not err_on_true
+                if not any(self.cfg.dominated_by(node.id, d) for d in def_nodes):
+                    continue
+                self.compares[node.id] = {"hash_var": None, "mismatch": "t" if err_on_true else "f", "match": "f" if err_on_true else "t", "via_helper": defs[0][1], "def_nodes": def_nodes}
 
     def _guard_nodes(self) -> dict[int, dict]:
         """test nodes that mention base_hash by truthiness (not the compare itself)"""
@@ -199,6 +346,8 @@ def check(run: Run) -> None:
         raise AnalysisError("fewer than 2 install functions (functions that rename onto a target) found")
 
     for inst in installs:
+        learn_error_helpers(inst.fa.fi.module)
+        _CURRENT_FUNC[0] = inst.fa.fi.fqn
         cas = Cas(inst, res)
         fa, cfg, fi, mod = cas.fa, cas.cfg, cas.fa.fi, cas.fa.fi.module
         if not cas.bh:
@@ -233,6 +382,8 @@ def check(run: Run) -> None:
         # the compared hash must derive from a read that happens before the compare on all paths (dominance)
         for t in sorted(entry_valid):
             hv = cas.compares[t]["hash_var"]
+            if hv is None:
+                continue  # compare done inside a CAS helper: checked there (cas_helper_summary)
             ok = any(any(cfg.dominated_by(t, a) for a in cfg.node_for_stmt_containing(st)) for st, _ in cas.hash_vars[hv])
             if not ok:
                 run.violation("R17.1", mod, fi.qualname, cfg.nodes[t].ast, f"compared hash `{hv}` is not computed on every path before the compare")  # type: ignore[arg-type]
@@ -245,6 +396,12 @@ def check(run: Run) -> None:
             hv = cas.compares[t]["hash_var"]
             # the read feeding the compared hash must itself happen after mkstemp
             fresh = False
+            if hv is None:
+                # the helper reads the target itself on every call: fresh when the call happens after mkstemp
+                fresh = all(cfg.dominated_by(x, M) for x in cas.compares[t]["def_nodes"])
+                if fresh:
+                    late_valid.add(t)
+                continue
             for st, rv in cas.hash_vars[hv]:
                 for rst in cas.read_vars.get(rv, []):
                     rn = cfg.node_for_stmt_containing(rst)
